@@ -18,7 +18,7 @@
    Organisation: shr (sessions and member lists only shrink; keeps the tenancy invariant Ten),
    Fr (the frame of one backend), both reflexive and transitive, one lemma per model function. *)
 From Coq Require Import List NArith ZArith Bool Lia.
-From Verif Require Import model.Hub proofs.Hub_basics proofs.Hub_easy proofs.Hub_wf proofs.Hub_corollaries proofs.Hub_pending.
+From Verif Require Import model.Hub proofs.Hub_basics proofs.Hub_easy proofs.Hub_route proofs.Hub_wf proofs.Hub_corollaries proofs.Hub_pending.
 Import ListNotations.
 Open Scope N_scope.
 
@@ -37,6 +37,39 @@ Proof. intros E. unfold room_of. now rewrite E. Qed.
 Lemma snd_eq {A B} (p : A * B) a b : p = (a, b) -> b = snd p.
 Proof. intros ->. reflexivity. Qed.
 
+(* session ids occur once in the session table *)
+Definition keys_ok (h : hub) : Prop := NoDup (map fst (h_sessions h)).
+Lemma in_keys_aset {V} (l : alist V) k v k' : In k' (map fst (aset l k v)) -> k' = k \/ In k' (map fst l).
+Proof.
+  induction l as [|[k0 v0] r IH]; cbn; [intros [E|[]]; auto|].
+  destruct (N.eqb_spec k k0) as [->|Hne]; cbn; [tauto|]. intros [E|H]; [auto|]. destruct (IH H); auto.
+Qed.
+Lemma nodup_aset {V} (l : alist V) k v : NoDup (map fst l) -> NoDup (map fst (aset l k v)).
+Proof.
+  induction l as [|[k0 v0] r IH]; cbn; intros H.
+  - constructor; [intros []|constructor].
+  - inversion H as [|a b Hn Hr]; subst. destruct (N.eqb_spec k k0) as [->|Hne]; cbn.
+    + now constructor.
+    + constructor; [|now apply IH]. intros Hin. apply in_keys_aset in Hin as [E|Hin]; [congruence|contradiction].
+Qed.
+Lemma in_keys_adel' {V} (l : alist V) k k' : In k' (map fst (adel l k)) -> In k' (map fst l).
+Proof.
+  induction l as [|[k0 v0] r IH]; cbn; [tauto|]. destruct (N.eqb k k0); cbn; [auto|]. intros [E|H]; auto.
+Qed.
+Lemma nodup_adel {V} (l : alist V) k : NoDup (map fst l) -> NoDup (map fst (adel l k)).
+Proof.
+  induction l as [|[k0 v0] r IH]; cbn; intros H; [constructor|].
+  inversion H as [|a b Hn Hr]; subst. destruct (N.eqb k k0); cbn; [now apply IH|].
+  constructor; [|now apply IH]. intros Hin. apply in_keys_adel' in Hin. contradiction.
+Qed.
+Lemma aget_in_nodup {V} (l : alist V) k v : NoDup (map fst l) -> In (k, v) l -> aget l k = Some v.
+Proof.
+  induction l as [|[k0 v0] r IH]; cbn; intros H Hin; [contradiction|].
+  inversion H as [|a b Hn Hr]; subst. destruct Hin as [E|Hin].
+  - injection E as -> ->. now rewrite N.eqb_refl.
+  - destruct (N.eqb_spec k k0) as [->|Hne]; [|now apply IH]. exfalso. apply Hn. apply in_map_iff. exists (k0, v). auto.
+Qed.
+
 (* ------------------------------------------------------------------ shr: nothing appears *)
 Record shr (h h' : hub) : Prop := {
   sh_sess : forall sid s', get_sess h' sid = Some s' ->
@@ -44,17 +77,18 @@ Record shr (h h' : hub) : Prop := {
                       (s_room s' = s_room s \/ s_room s' = None);
   sh_room : forall k r', room_of h' k = Some r' -> exists r, room_of h k = Some r /\ incl (r_members r') (r_members r);
   sh_next : h_nextsid h' = h_nextsid h;
+  sh_keys : keys_ok h -> keys_ok h';
 }.
 
 Lemma shr_refl h : shr h h.
 Proof.
-  constructor; [| |reflexivity].
+  constructor; [| |reflexivity|auto].
   - intros sid s' Hs. exists s'. auto.
   - intros k r' Hr. exists r'. split; [exact Hr|apply incl_refl].
 Qed.
 Lemma shr_trans h1 h2 h3 : shr h1 h2 -> shr h2 h3 -> shr h1 h3.
 Proof.
-  intros [S1 R1 N1] [S2 R2 N2]. constructor; [| |congruence].
+  intros [S1 R1 N1 K1] [S2 R2 N2 K2]. constructor; [| |congruence|auto].
   - intros sid s3 H3. destruct (S2 sid s3 H3) as (s2 & H2 & Hb2 & Hk2 & Hr2).
     destruct (S1 sid s2 H2) as (s1 & H1 & Hb1 & Hk1 & Hr1). exists s1.
     split; [exact H1|]. split; [congruence|]. split; [congruence|].
@@ -65,7 +99,7 @@ Qed.
 
 Lemma shr_eq h h' : h_sessions h' = h_sessions h -> h_rooms h' = h_rooms h -> h_nextsid h' = h_nextsid h -> shr h h'.
 Proof.
-  intros Es Er En. constructor; [| |exact En].
+  intros Es Er En. constructor; [| |exact En|unfold keys_ok; now rewrite Es].
   - intros sid s' Hs. rewrite (get_ext h h' sid Es) in Hs. exists s'. auto.
   - intros k r' Hr. rewrite (room_ext h h' k Er) in Hr. exists r'. split; [exact Hr|apply incl_refl].
 Qed.
@@ -83,7 +117,7 @@ Lemma shr_aset h h' x s s' :
   h_sessions h' = aset (h_sessions h) x s' -> h_rooms h' = h_rooms h -> h_nextsid h' = h_nextsid h ->
   get_sess h x = Some s -> keeps s s' -> shr h h'.
 Proof.
-  intros Es Er En Hx (Kb & Kk & Kr). constructor; [| |exact En].
+  intros Es Er En Hx (Kb & Kk & Kr). constructor; [| |exact En|unfold keys_ok; rewrite Es; apply nodup_aset].
   - intros sid t Ht. unfold get_sess in *. rewrite Es, aget_aset in Ht.
     destruct (N.eqb_spec sid x) as [->|Hne].
     + injection Ht as <-. exists s. auto.
@@ -95,7 +129,7 @@ Proof. intros Hx K. apply (shr_aset h (put_sess h x s') x s s'); auto. Qed.
 Lemma shr_adel h h' x :
   h_sessions h' = adel (h_sessions h) x -> h_rooms h' = h_rooms h -> h_nextsid h' = h_nextsid h -> shr h h'.
 Proof.
-  intros Es Er En. constructor; [| |exact En].
+  intros Es Er En. constructor; [| |exact En|unfold keys_ok; rewrite Es; apply nodup_adel].
   - intros sid t Ht. unfold get_sess in *. rewrite Es, aget_adel in Ht.
     destruct (N.eqb sid x); [discriminate|]. exists t. auto.
   - intros k r' Hr. rewrite (room_ext h h' k Er) in Hr. exists r'. split; [exact Hr|apply incl_refl].
@@ -105,7 +139,7 @@ Lemma shr_rooms h v :
   (forall k r', pget v k = Some r' -> exists r, room_of h k = Some r /\ incl (r_members r') (r_members r)) ->
   shr h (set_rooms h v).
 Proof.
-  intros Hv. constructor; [| |reflexivity].
+  intros Hv. constructor; [| |reflexivity|auto].
   - intros sid s' Hs. exists s'. auto.
   - intros k r' Hr. rewrite room_of_set_rooms in Hr. now apply Hv.
 Qed.
@@ -551,14 +585,15 @@ Record Ten (h : hub) : Prop := {
   t_parent : forall vs s p v, get_sess h vs = Some s -> s_kind s = KVirtual p v -> bsid (s_backend s) h p;
   (* the members of a room are sessions of the room's backend *)
   t_member : forall k r m, room_of h k = Some r -> In m (r_members r) -> bsid (fst k) h m;
+  t_keys : keys_ok h;
 }.
 
 Lemma ten_init limits gated : Ten (init limits gated).
-Proof. constructor; unfold init, room_of, get_sess; cbn; intros; discriminate. Qed.
+Proof. constructor; unfold init, room_of, get_sess, keys_ok; cbn; intros; try discriminate. constructor. Qed.
 
 Lemma ten_shr h h' : Ten h -> shr h h' -> Ten h'.
 Proof.
-  intros [T1 T2 T3] [S R _]. constructor.
+  intros [T1 T2 T3 T4] [S R _ K]. constructor; [| | |auto].
   - intros sid s' k Hs Hk. destruct (S sid s' Hs) as (s & Hs0 & Hb & _ & [Hr|Hr]); [|congruence].
     rewrite Hb. apply (T1 sid s k Hs0). congruence.
   - intros vs s' p v Hs Hk ps' Hps. destruct (S vs s' Hs) as (s & Hs0 & Hb & Hkd & _).
@@ -576,13 +611,13 @@ Lemma ten_update h h' sid s s1 :
       (m = sid /\ fst k = s_backend s) \/ exists r, room_of h k = Some r /\ In m (r_members r)) ->
   Ten h'.
 Proof.
-  intros [T1 T2 T3] Hs Es Hb Hk Hroom Hrooms.
+  intros [T1 T2 T3 T4] Hs Es Hb Hk Hroom Hrooms.
   assert (G : forall x t', get_sess h' x = Some t' -> exists t, get_sess h x = Some t /\ s_backend t' = s_backend t /\ s_kind t' = s_kind t /\
                  (x = sid /\ t' = s1 \/ t' = t)).
   { intros x t' Ht. unfold get_sess in *. rewrite Es, aget_aset in Ht. destruct (N.eqb_spec x sid) as [->|Hne].
     - injection Ht as <-. exists s. split; [exact Hs|]. split; [exact Hb|]. split; [exact Hk|]. left. auto.
     - exists t'. split; [exact Ht|]. auto. }
-  constructor.
+  constructor; [| | |unfold keys_ok; rewrite Es; now apply nodup_aset].
   - intros x t' k Ht Hr. destruct (G x t' Ht) as (t & Ht0 & Hbt & _ & [[-> ->]| ->]).
     + rewrite Hb. rewrite Hs in Ht0. injection Ht0 as <-. now apply Hroom.
     + now apply (T1 x t k).
@@ -603,12 +638,12 @@ Lemma ten_new h h' sid s0 :
       (m = sid /\ fst k = s_backend s0) \/ exists r, room_of h k = Some r /\ In m (r_members r)) ->
   Ten h'.
 Proof.
-  intros W [T1 T2 T3] Hn Es Hroom Hpar Hrooms.
+  intros W [T1 T2 T3 T4] Hn Es Hroom Hpar Hrooms.
   assert (G : forall x t', get_sess h' x = Some t' -> (x = sid /\ t' = s0) \/ (x <> sid /\ get_sess h x = Some t')).
   { intros x t' Ht. unfold get_sess in *. rewrite Es, aget_aset in Ht. destruct (N.eqb_spec x sid) as [->|Hne].
     - injection Ht as <-. now left.
     - right. auto. }
-  constructor.
+  constructor; [| | |unfold keys_ok; rewrite Es; now apply nodup_aset].
   - intros x t' k Ht Hr. destruct (G x t' Ht) as [[-> ->]|[_ Ht0]]; [now apply Hroom|now apply (T1 x t' k)].
   - intros vs t' p v Ht Hkd ps' Hps. destruct (G vs t' Ht) as [[-> ->]|[Hne Ht0]].
     + destruct (G p ps' Hps) as [[-> ->]|[_ Hps0]]; [reflexivity|]. apply (Hpar p v Hkd ps' Hps0).
@@ -624,7 +659,7 @@ Qed.
 
 Lemma ten_ext h h' : Ten h -> h_sessions h' = h_sessions h -> h_rooms h' = h_rooms h -> Ten h'.
 Proof.
-  intros [T1 T2 T3] Es Er. constructor.
+  intros [T1 T2 T3 T4] Es Er. constructor; [| | |unfold keys_ok; now rewrite Es].
   - intros sid s k Hs. rewrite (get_ext h h' sid Es) in Hs. now apply (T1 sid).
   - intros vs s p v Hs Hk ps Hps. rewrite (get_ext h h' vs Es) in Hs. rewrite (get_ext h h' p Es) in Hps. apply (T2 vs s p v Hs Hk ps Hps).
   - intros k r m Hr Hm s Hs. rewrite (room_ext h h' k Er) in Hr. rewrite (get_ext h h' _ Es) in Hs. apply (T3 k r m Hr Hm s Hs).
@@ -796,17 +831,17 @@ Proof.
     destruct (fold_sessions h1 l f) as [h2 o2]. cbn [fst snd]. now rewrite app_assoc.
 Qed.
 
-Lemma loc_fold_sessions b oc (f : hub -> N -> hub * list out) l : forall h,
-  Ten h -> (forall x, In x l -> bsid b h x) ->
-  (forall hh x, Ten hh -> bsid b hh x -> Loc b oc hh (f hh x)) ->
-  (forall hh x, shr hh (fst (f hh x))) ->
+Lemma loc_fold_sessions (P : hub -> Prop) b oc (f : hub -> N -> hub * list out) l : forall h,
+  P h -> (forall x, In x l -> bsid b h x) ->
+  (forall hh x, P hh -> bsid b hh x -> Loc b oc hh (f hh x)) ->
+  (forall hh x, P hh -> P (fst (f hh x))) ->
   Loc b oc h (fold_sessions h l f).
 Proof.
   induction l as [|x l IH]; intros h T Hl Hf Hs.
   - apply loc_ret.
   - rewrite fold_sessions_cons. destruct (f h x) as [h1 o1] eqn:E1.
     assert (L1 : Loc b oc h (h1, o1)) by (rewrite <- E1; apply Hf; [exact T|apply Hl; now left]).
-    assert (T1 : Ten h1) by (apply (ten_shr h); [exact T|rewrite (fst_eq _ _ _ E1); apply Hs]).
+    assert (T1 : P h1) by (rewrite (fst_eq _ _ _ E1); now apply Hs).
     assert (L2 : Loc b oc h1 (fold_sessions h1 l f)).
     { apply IH; auto. intros y Hy. apply (bsid_fr b oc h h1); [apply L1|apply Hl; now right]. }
     destruct (fold_sessions h1 l f) as [h2 o2]. apply (loc_bind b oc h (h1, o1) (h2, o2)); assumption.
@@ -1316,11 +1351,11 @@ Proof.
   intros T Hx Hk. rewrite close_session_eq. cbn [fst].
   assert (F1 : Fr b oc h (fst (close_one h x))) by now apply fr_close_one.
   eapply fr_trans; [exact F1|].
-  apply (loc_fold_sessions b oc close_one).
+  apply (loc_fold_sessions Ten b oc close_one).
   - apply (ten_shr h); [exact T|apply shr_close_one].
   - intros k Hin. eapply bsid_fr; [exact F1|now apply Hk].
   - intros hh y Th Hy. apply loc_noconn; [now apply fr_close_one|apply noconn_close_one].
-  - intros hh y. apply shr_close_one.
+  - intros hh y Th. apply (ten_shr hh); [exact Th|apply shr_close_one].
 Qed.
 
 (* ------------------------------------------------------------------ closing a connection *)
@@ -1432,3 +1467,693 @@ Lemma ti_leave_room h x n : TI h -> TI (fst (leave_room h x n)).
 Proof. intros TIh. apply (ti_next h); [exact TIh|apply shr_leave_room|apply bij_leave_room, TIh]. Qed.
 Lemma ti_close_session h x : TI h -> TI (fst (close_session h x)).
 Proof. intros TIh. apply (ti_next h); [exact TIh|apply shr_close_session|apply bij_close_session, TIh]. Qed.
+
+Lemma leave_room_keeps h x n s : get_sess h x = Some s ->
+  exists s1, get_sess (fst (leave_room h x n)) x = Some s1 /\ s_conn s1 = s_conn s /\ s_kind s1 = s_kind s /\ s_backend s1 = s_backend s.
+Proof.
+  intros Hs. pose proof (leave_room_core h x n x) as Hq. rewrite N.eqb_refl, Hs in Hq.
+  destruct (get_sess (fst (leave_room h x n)) x) as [s1|] eqn:H1.
+  - exists s1. split; [reflexivity|]. destruct (sh_sess _ _ (shr_leave_room h x n) x s1 H1) as (s0 & Hs0 & Hb & Hk & _).
+    rewrite Hs in Hs0. injection Hs0 as <-. cbn in Hq. unfold core, unroomed in Hq.
+    destruct (s_room s); inversion Hq; auto.
+  - cbn in Hq. destruct (s_room s); discriminate.
+Qed.
+
+Lemma ti_close_conn h c : TI h -> TI (fst (close_conn h c)).
+Proof. intros TIh. apply (ti_next h); [exact TIh|apply shr_close_conn|apply bij_close_conn, TIh]. Qed.
+
+(* closing a session of b that may have been closed already by the bye just written *)
+Lemma loc_bye_close b oc h0 h x s0 :
+  Ten h0 -> shr h0 h -> get_sess h0 x = Some s0 -> s_backend s0 = b -> TI h -> bsid b h x ->
+  Loc b oc h (close_session h x).
+Proof.
+  intros T0 S Hs0 Hb0 TIh Hx. apply loc_noconn; [|apply noconn_close_session].
+  apply fr_close_session; [apply TIh|exact Hx|]. apply (kids_shr b h0 h x s0); auto.
+Qed.
+
+Lemma loc_kick b oc h rs : TI h -> (forall x, aget (h_rs2 h) rs = Some x -> bsid b h x) ->
+  Loc b oc h (kick_room_session h rs).
+Proof.
+  intros TIh Hrs. unfold kick_room_session. destruct (aget (h_rs2 h) rs) as [x|]; [|apply loc_ret].
+  specialize (Hrs x eq_refl).
+  destruct (get_sess h x) as [s'|] eqn:Hs.
+  2:{ apply loc_fr. apply fr_publish. split; cbn; [|exact I]. intros t Ht. congruence. }
+  assert (Hb : s_backend s' = b) by now apply Hrs.
+  pose proof (fr_leave_room b oc h x false (proj1 TIh) Hrs) as F1.
+  pose proof (noconn_leave_room h x false) as N1.
+  pose proof (ti_leave_room h x false TIh) as TI1.
+  pose proof (shr_leave_room h x false) as S1.
+  destruct (leave_room_keeps h x false s' Hs) as (s1 & Hs1 & Hc1 & Hk1 & Hb1).
+  destruct (leave_room h x false) as [h1 o1]. cbn [fst snd] in *.
+  assert (L1 : Loc b oc h (h1, o1)) by (split; [exact F1|now apply noconn_ok]).
+  assert (L2 : Loc b oc h1 (match s_kind s', s_conn s' with
+                            | KVirtual _ _, _ => (h1, [])
+                            | _, Some c' => send_conn h1 c' (SBye B_room_session_reconnected)
+                            | _, None => (h1, []) end) /\
+               TI (fst (match s_kind s', s_conn s' with
+                            | KVirtual _ _, _ => (h1, [])
+                            | _, Some c' => send_conn h1 c' (SBye B_room_session_reconnected)
+                            | _, None => (h1, []) end)) /\
+               shr h1 (fst (match s_kind s', s_conn s' with
+                            | KVirtual _ _, _ => (h1, [])
+                            | _, Some c' => send_conn h1 c' (SBye B_room_session_reconnected)
+                            | _, None => (h1, []) end))).
+  { assert (G : forall c', s_conn s' = Some c' -> Loc b oc h1 (send_conn h1 c' (SBye B_room_session_reconnected))).
+    { intros c' Hc'. apply loc_send_conn; [exact TI1| |].
+      - right. exists x, s1. split; [exact Hs1|]. split; congruence.
+      - apply (cb_of_claim b h1 x s1 c'); [apply TI1|exact Hs1|congruence|congruence]. }
+    destruct (s_kind s') as [| |p v]; destruct (s_conn s') as [c'|];
+      try (split; [apply loc_ret|split; [exact TI1|apply shr_refl]]);
+      (split; [now apply G|split; [now apply ti_send_conn|apply shr_send_conn]]). }
+  destruct L2 as (L2 & TI2 & S2).
+  match goal with |- context [let '(h2, outs2) := ?X in _] => destruct X as [h2 o2] end. cbn [fst] in *.
+  assert (L12 : Loc b oc h (h2, o1 ++ o2)) by (apply (loc_bind b oc h (h1, o1) (h2, o2)); assumption).
+  assert (L3 : Loc b oc h2 (close_session h2 x)).
+  { apply (loc_bye_close b oc h h2 x s'); auto; [apply TIh|eapply shr_trans; eauto|].
+    eapply bsid_fr; [apply L12|exact Hrs]. }
+  destruct (close_session h2 x) as [h3 o3].
+  pose proof (loc_bind b oc h (h2, o1 ++ o2) (h3, o3) L12 L3) as L. cbn [fst snd] in L. now rewrite <- app_assoc in L.
+Qed.
+
+Lemma ti_kick h rs : TI h -> TI (fst (kick_room_session h rs)).
+Proof. intros TIh. apply (ti_next h); [exact TIh|apply shr_kick|apply bij_kick, TIh]. Qed.
+
+Lemma pub_ok_plain b h subj m t :
+  match subj with
+  | SubjRoom b' _ | SubjBackendRoom b' _ | SubjUser b' _ => b' = b
+  | SubjSession sid => bsid b h sid
+  | SubjNobody => True end ->
+  match m with ARoomReq (AInCall _) | ASessionJoined _ _ => False | _ => True end ->
+  pub_ok b h (mkpub subj m t).
+Proof.
+  intros H1 H2. split; cbn; [exact H1|]. destruct m as [| | | | |q]; try exact I; try contradiction. destruct q; try exact I. contradiction.
+Qed.
+
+Lemma loc_do_message b oc h x s kindn to tag :
+  TI h -> get_sess h x = Some s -> s_backend s = b -> Loc b oc h (do_message h x s kindn to tag true).
+Proof.
+  intros TIh Hs Hb. unfold do_message.
+  assert (Hnobody : forall m, Loc b oc h (publish h SubjNobody (AEvent m x false), [])).
+  { intros m. apply loc_fr, fr_publish. now apply pub_ok_plain. }
+  destruct to as [i|u| |].
+  - destruct i as [n|n|k|n]; try apply Hnobody.
+    destruct (get_sess h n) as [t|] eqn:Ht; [|apply Hnobody].
+    cbn [andb]. destruct (N.eqb_spec (s_backend t) (s_backend s)) as [Hbt|]; [|apply loc_ret]. cbn [negb].
+    destruct (N.eqb n x); [apply loc_ret|].
+    destruct (s_kind t) as [| |p v] eqn:Hk.
+    + apply loc_send_session; [exact TIh|]. intros t' Ht'. congruence.
+    + apply loc_send_session; [exact TIh|]. intros t' Ht'. congruence.
+    + apply loc_send_session; [exact TIh|]. rewrite <- Hb, <- Hbt. apply (t_parent h (proj1 TIh) n t p v Ht Hk).
+  - destruct (N.eqb u 0); [apply loc_ret|]. destruct (N.eqb u (sess_userid h x s)); [apply loc_ret|].
+    apply loc_fr, fr_publish. now apply pub_ok_plain.
+  - destruct (s_room s) as [k|] eqn:Hk; [|apply loc_ret].
+    apply loc_fr, fr_publish. apply pub_ok_plain; [|exact I]. rewrite <- Hb. apply (t_room h (proj1 TIh) x s k Hs Hk).
+  - destruct (s_room s) as [k|] eqn:Hk; [|apply loc_ret].
+    apply loc_fr, fr_publish. apply pub_ok_plain; [|exact I]. rewrite <- Hb. apply (t_room h (proj1 TIh) x s k Hs Hk).
+Qed.
+
+Lemma loc_recv_event b oc h x m sender co re t : TI h -> bsid b h x -> Loc b oc h (recv_event h x m sender co re t).
+Proof.
+  intros TIh Hx. unfold recv_event. destruct (get_sess h x) as [s|]; [|apply loc_ret].
+  destruct (N.eqb sender x && negb (N.eqb sender 0)); [apply loc_ret|].
+  destruct (co && negb (in_call h x s)); [apply loc_ret|].
+  match goal with |- context [if ?c then _ else _] => destruct c end; [apply loc_ret|]. now apply loc_send_session.
+Qed.
+Lemma ti_recv_event h x m sender co re t : TI h -> TI (fst (recv_event h x m sender co re t)).
+Proof. intros TIh. apply (ti_next h); [exact TIh|apply shr_recv_event|apply bij_recv_event, TIh]. Qed.
+
+Lemma loc_delete_member b oc hh m : TI hh -> bsid b hh m -> Loc b oc hh (delete_member hh m).
+Proof.
+  intros TIh Hm. unfold delete_member. destruct (get_sess hh m) as [s|]; [|apply loc_ret].
+  pose proof (fr_leave_room b oc hh m true (proj1 TIh) Hm) as F1.
+  pose proof (noconn_leave_room hh m true) as N1.
+  pose proof (ti_leave_room hh m true TIh) as TI1.
+  destruct (leave_room hh m true) as [h2 o1]. cbn [fst snd] in *.
+  assert (L1 : Loc b oc hh (h2, o1)) by (split; [exact F1|now apply noconn_ok]).
+  destruct (is_virtual (s_kind s)); [exact L1|].
+  assert (L2 : Loc b oc h2 (send_session h2 m (SRoom 0))).
+  { apply loc_send_session; [exact TI1|]. eapply bsid_fr; eauto. }
+  destruct (send_session h2 m (SRoom 0)) as [h3 o2]. apply (loc_bind b oc hh (h2, o1) (h3, o2)); assumption.
+Qed.
+Lemma ti_delete_member hh m : TI hh -> TI (fst (delete_member hh m)).
+Proof. intros TIh. apply (ti_next hh); [exact TIh|apply shr_delete_member|apply bij_delete_member, TIh]. Qed.
+
+(* ------------------------------------------------------------------ room requests *)
+Lemma fr_set_incall b oc h k x on : fst k = b -> Fr b oc h (set_incall h k x on).
+Proof.
+  intros Hk. unfold set_incall. destruct (room_of h k) as [r|]; [|apply fr_refl].
+  destruct (on && negb (nmem x (r_members r))); [apply fr_refl|]. now apply fr_set_room.
+Qed.
+Lemma ti_set_rooms h v : (forall k r', pget v k = Some r' -> exists r, room_of h k = Some r /\ incl (r_members r') (r_members r)) ->
+  TI h -> TI (set_rooms h v).
+Proof. intros Hv TIh. apply (ti_next h); [exact TIh|now apply shr_rooms|apply bij_set_rooms, TIh]. Qed.
+Lemma ti_set_incall h k x on : TI h -> TI (set_incall h k x on).
+Proof. intros TIh. apply (ti_next h); [exact TIh|apply shr_set_incall|apply bij_set_incall, TIh]. Qed.
+Lemma ti_leave_call h x : TI h -> TI (fst (leave_call h x)).
+Proof. intros TIh. apply (ti_next h); [exact TIh|apply shr_leave_call|apply bij_leave_call, TIh]. Qed.
+Lemma ti_publish h subj m : TI h -> TI (publish h subj m).
+Proof. intros TIh. apply (ti_next h); [exact TIh|apply shr_publish|apply bij_publish, TIh]. Qed.
+
+Definition req_ok (b : N) (h : hub) (q : apireq) : Prop :=
+  match q with
+  | AInCall l => forall i ic pm, In (i, ic, pm) l -> match i with IdPub sid => bsid b h sid | _ => True end
+  | _ => True
+  end.
+
+Lemma loc_room_request b oc h k q :
+  TI h -> fst k = b -> (forall r, room_of h k = Some r -> incl (r_incall r) (r_members r)) -> req_ok b h q ->
+  Loc b oc h (room_request h k q).
+Proof.
+  intros TIh Hk Hinc Hq. unfold room_request. destruct (room_of h k) as [r|] eqn:Hroom; [|apply loc_ret].
+  assert (Hmem : forall m, In m (r_members r) -> bsid b h m).
+  { intros m Hm. rewrite <- Hk. apply (t_member h (proj1 TIh) k r m Hroom Hm). }
+  assert (Hpub : forall hh m, match m with ARoomReq (AInCall _) | ASessionJoined _ _ => False | _ => True end ->
+                   Fr b oc hh (publish hh (SubjRoom (fst k) (snd k)) m)).
+  { intros hh m Hm. apply fr_publish. now apply pub_ok_plain. }
+  destruct q as [|users rs|tag|l|l|ic|tag].
+  - (* delete *)
+    match goal with |- context [fold_sessions h ?int ?f] => set (internals := int); set (g := f) end.
+    assert (L0 : Loc b oc h (fold_sessions h internals g)).
+    { apply (loc_fold_sessions TI); [exact TIh| | |].
+      - intros x Hx. apply Hmem. unfold internals in Hx. apply filter_In in Hx. apply Hx.
+      - intros hh x Th Hx. now apply loc_send_session.
+      - intros hh x Th. now apply ti_send_session. }
+    assert (TI0 : TI (fst (fold_sessions h internals g))).
+    { apply wf_fold_sessions; [exact TIh|]. intros hh x. apply ti_send_session. }
+    destruct (fold_sessions h internals g) as [h0 o0]. cbn [fst] in TI0.
+    set (h1 := set_rooms h0 (pdel (h_rooms h0) k)).
+    assert (F1 : Fr b oc h0 h1) by now apply fr_del_room.
+    assert (TI1 : TI h1).
+    { apply ti_set_rooms; [|exact TI0]. intros k' r' Hr. rewrite pget_pdel in Hr. destruct (pair_eqb k' k); [discriminate|].
+      exists r'. split; [exact Hr|apply incl_refl]. }
+    assert (L9 : Loc b oc h1 (fold_sessions h1 (r_members r) delete_member)).
+    { apply (loc_fold_sessions TI); [exact TI1| | |].
+      - intros x Hx. eapply bsid_fr; [exact F1|]. eapply bsid_fr; [apply L0|]. now apply Hmem.
+      - intros hh x Th Hx. now apply loc_delete_member.
+      - intros hh x Th. now apply ti_delete_member. }
+    destruct (fold_sessions h1 (r_members r) delete_member) as [h9 o9].
+    apply (loc_bind b oc h (h0, o0) (h9, o9)); [exact L0|]. cbn [fst]. eapply loc_after_fr; eauto.
+  - apply loc_ret.
+  - destruct (N.eqb (r_props r) (tag + 1)); [apply loc_ret|]. apply loc_fr.
+    eapply fr_trans; [apply (fr_set_room b oc h k); exact Hk|]. now apply Hpub.
+  - apply loc_fr. now apply Hpub.
+  - (* incall *)
+    match goal with |- context [fold_left ?f l (h, [])] => set (g := f) end.
+    assert (G : forall l' acc, incl l' l -> Fr b oc h (fst acc) -> noconn (snd acc) ->
+                Fr b oc h (fst (fold_left g l' acc)) /\ noconn (snd (fold_left g l' acc))).
+    { induction l' as [|u l' IH]; intros acc Hi Hf Hn; cbn [fold_left]; [auto|].
+      apply IH; [intros y Hy; apply Hi; now right| |]; destruct acc as [hh oo]; cbn [fst snd] in *; unfold g;
+        destruct u as [[i icv] pm]; destruct i as [n|y|kk|n]; auto;
+        (assert (Hy : bsid b hh y) by (eapply bsid_fr; [exact Hf|]; apply (Hq (IdPub y) icv pm); apply Hi; now left));
+        destruct (get_sess hh y); auto; destruct (N.testbit icv 0); cbn [fst snd]; auto.
+      - eapply fr_trans; [exact Hf|now apply fr_set_incall].
+      - pose proof (fr_leave_call b oc (set_incall hh k y false) y) as F2.
+        destruct (leave_call (set_incall hh k y false) y) as [h2 o2]. cbn [fst] in *.
+        eapply fr_trans; [exact Hf|]. eapply fr_trans; [now apply (fr_set_incall b oc hh k y false)|]. apply F2.
+        eapply bsid_fr; [now apply (fr_set_incall b oc hh k y false)|exact Hy].
+      - pose proof (noconn_leave_call (set_incall hh k y false) y) as N2.
+        destruct (leave_call (set_incall hh k y false) y) as [h2 o2]. cbn [snd] in *. now apply noconn_app. }
+    destruct (G l (h, []) (incl_refl l) (fr_refl b oc h) noconn_nil) as [F N].
+    destruct (fold_left g l (h, [])) as [h1 outs]. cbn [fst snd] in *. split; cbn [fst snd].
+    + eapply fr_trans; [exact F|now apply Hpub].
+    + now apply noconn_ok.
+  - (* incall for everybody *)
+    destruct (N.testbit ic 0).
+    + match goal with |- context [filter ?f (filter ?g0 (r_members r))] => set (fresh := filter f (filter g0 (r_members r))); set (joiners := filter g0 (r_members r)) end.
+      destruct fresh as [|f0 fr0] eqn:Hfresh; [apply loc_ret|]. rewrite <- Hfresh.
+      assert (F1 : Fr b oc h (fold_left (fun hh m => set_incall hh k m true) fresh h)).
+      { apply fr_fold_left_hub. intros hh x _ _. now apply fr_set_incall. }
+      assert (TI1 : TI (fold_left (fun hh m => set_incall hh k m true) fresh h)).
+      { apply wf_fold_left_hub; [exact TIh|]. intros hh x. apply ti_set_incall. }
+      eapply loc_after_fr; [exact F1|].
+      apply (loc_fold_sessions TI); [exact TI1| | |].
+      * intros x Hx. eapply bsid_fr; [exact F1|]. apply Hmem. unfold joiners in Hx. apply filter_In in Hx. apply Hx.
+      * intros hh x Th Hx. now apply loc_send_session.
+      * intros hh x Th. now apply ti_send_session.
+    + destruct (r_incall r) as [|i0 ir0] eqn:Hic; [apply loc_ret|]. rewrite <- Hic.
+      set (h1 := set_rooms h (pset (h_rooms h) k (mkroom (r_members r) [] (r_sessdata r) (r_transient r) (r_props r)))).
+      assert (F1 : Fr b oc h h1) by now apply fr_set_room.
+      assert (TI1 : TI h1).
+      { apply ti_set_rooms; [|exact TIh]. intros k' r' Hr. rewrite pget_pset in Hr. destruct (pair_eqb_spec k' k) as [->|Hne].
+        - injection Hr as <-. exists r. split; [exact Hroom|apply incl_refl].
+        - exists r'. split; [exact Hr|apply incl_refl]. }
+      assert (L2 : Loc b oc h1 (fold_sessions h1 (r_incall r) leave_call)).
+      { apply (loc_fold_sessions TI); [exact TI1| | |].
+        - intros x Hx. eapply bsid_fr; [exact F1|]. apply Hmem. now apply (Hinc r eq_refl).
+        - intros hh x Th Hx. apply loc_noconn; [now apply fr_leave_call|apply noconn_leave_call].
+        - intros hh x Th. now apply ti_leave_call. }
+      assert (TI2 : TI (fst (fold_sessions h1 (r_incall r) leave_call))).
+      { apply wf_fold_sessions; [exact TI1|]. intros hh x. apply ti_leave_call. }
+      destruct (fold_sessions h1 (r_incall r) leave_call) as [h2 o1]. cbn [fst] in TI2.
+      match goal with |- context [fold_sessions h2 ?lv ?f] => set (notify := lv); set (g := f) end.
+      assert (L3 : Loc b oc h2 (fold_sessions h2 notify g)).
+      { apply (loc_fold_sessions TI); [exact TI2| | |].
+        - intros x Hx. eapply bsid_fr; [apply L2|]. eapply bsid_fr; [exact F1|]. apply Hmem.
+          unfold notify in Hx. apply filter_In in Hx. apply Hx.
+        - intros hh x Th Hx. now apply loc_send_session.
+        - intros hh x Th. now apply ti_send_session. }
+      destruct (fold_sessions h2 notify g) as [h3 o2].
+      eapply loc_after_fr; [exact F1|]. apply (loc_bind b oc h1 (h2, o1) (h3, o2)); assumption.
+  - apply loc_fr. now apply Hpub.
+Qed.
+Lemma ti_room_request h k q : TI h -> TI (fst (room_request h k q)).
+Proof. intros TIh. apply (ti_next h); [exact TIh|apply shr_room_request|apply bij_room_request, TIh]. Qed.
+
+(* ------------------------------------------------------------------ delivery of one publication *)
+Lemma room_listeners_b b h k : Ten h -> fst k = b -> forall x, In x (room_listeners h k) -> bsid b h x.
+Proof.
+  intros T Hk x Hx t Ht. apply room_listener_spec in Hx as (s & Hin & _ & Hr).
+  pose proof (aget_in_nodup _ x s (t_keys h T) Hin) as Hg. unfold get_sess in Ht. rewrite Hg in Ht. injection Ht as <-.
+  rewrite <- Hk. symmetry. apply (t_room h T x s k); [exact Hg|exact Hr].
+Qed.
+Lemma user_listeners_b b h u : Ten h -> forall x, In x (user_listeners h b u) -> bsid b h x.
+Proof.
+  intros T x Hx t Ht. apply user_listener_spec in Hx as (s & Hin & _ & Hb & _).
+  pose proof (aget_in_nodup _ x s (t_keys h T) Hin) as Hg. unfold get_sess in Ht. rewrite Hg in Ht. injection Ht as <-. exact Hb.
+Qed.
+
+Lemma loc_listeners b oc h l m sender co re t : TI h -> (forall x, In x l -> bsid b h x) ->
+  Loc b oc h (fold_sessions h l (fun hh x => recv_event hh x m sender co re t)).
+Proof.
+  intros TIh Hl. apply (loc_fold_sessions TI); [exact TIh|exact Hl| |].
+  - intros hh x Th Hx. now apply loc_recv_event.
+  - intros hh x Th. now apply ti_recv_event.
+Qed.
+
+Lemma loc_deliver_pub b oc h p : TI h -> WF h -> pub_ok b h p -> Loc b oc h (deliver_pub h p).
+Proof.
+  intros TIh W [Hsubj Hmsg]. unfold deliver_pub.
+  destruct (p_subj p) as [b' r|b' r|b' u|x|]; destruct (p_msg p) as [m sender co|m|sj internal|pm| |q]; try apply loc_ret.
+  - apply loc_listeners; [exact TIh|]. apply room_listeners_b; [apply TIh|exact Hsubj].
+  - apply loc_listeners; [exact TIh|]. apply room_listeners_b; [apply TIh|exact Hsubj].
+  - (* session joined *)
+    destruct (room_of h (b', r)) as [rm|]; [|apply loc_ret].
+    match goal with |- context [match ?o with [] => _ | _ => _ end] => destruct o as [|o0 os] end; [apply loc_ret|].
+    apply loc_fr. cbn [p_msg] in Hmsg.
+    match goal with |- Fr _ _ _ (fold_left ?f ?l ?h0) => apply fr_trans with h0; [|apply fr_fold_left_hub] end.
+    + apply fr_publish. now apply pub_ok_plain.
+    + intros hh y Fh _. destruct (get_sess hh y) as [sx|]; [|apply fr_refl].
+      destruct (is_virtual (s_kind sx) && negb (N.eqb (s_flags sx) 0)); [|apply fr_refl].
+      apply fr_publish. apply pub_ok_plain; [|exact I]. eapply bsid_fr; [exact Fh|].
+      apply (bsid_fr b oc h); [|exact Hmsg]. apply fr_publish. now apply pub_ok_plain.
+  - (* room request *)
+    apply loc_room_request; [exact TIh|exact Hsubj| |].
+    + intros r0 Hr0 y Hy. apply (wf_incall _ _ h W (b', r) r0 y Hr0 Hy).
+    + destruct q; try exact I. exact Hmsg.
+  - subst b'. apply loc_listeners; [exact TIh|]. apply user_listeners_b, TIh.
+  - destruct (get_sess h x) as [s|]; [|apply loc_ret]. destruct (is_virtual (s_kind s)); [apply loc_ret|]. now apply loc_recv_event.
+  - destruct (get_sess h x) as [s|]; [|apply loc_ret]. destruct (is_virtual (s_kind s)); [apply loc_ret|]. now apply loc_recv_event.
+  - (* permissions *)
+    destruct (get_sess h x) as [s|] eqn:Hs; [|apply loc_ret]. destruct (is_virtual (s_kind s)); [apply loc_ret|].
+    assert (Hb : s_backend s = b) by now apply Hsubj.
+    apply loc_noconn; [|apply noconn_revoke].
+    eapply fr_trans; [apply (fr_put b oc h x s (sess_perms s (Some pm))); auto|].
+    apply fr_revoke. now apply bsid_put_same.
+  - (* kick through the bus *)
+    destruct (get_sess h x) as [s|] eqn:Hs; [|apply loc_ret]. destruct (is_virtual (s_kind s)); [apply loc_ret|].
+    assert (Hb : s_backend s = b) by now apply Hsubj.
+    pose proof (fr_leave_room b oc h x false (proj1 TIh) Hsubj) as F1.
+    pose proof (noconn_leave_room h x false) as N1.
+    pose proof (ti_leave_room h x false TIh) as TI1.
+    pose proof (shr_leave_room h x false) as S1.
+    destruct (leave_room h x false) as [h1 o1]. cbn [fst snd] in *.
+    assert (L1 : Loc b oc h (h1, o1)) by (split; [exact F1|now apply noconn_ok]).
+    assert (L2 : Loc b oc h1 (send_session h1 x (SBye B_room_session_reconnected))).
+    { apply loc_send_session; [exact TI1|]. eapply bsid_fr; eauto. }
+    pose proof (ti_send_session h1 x (SBye B_room_session_reconnected) TI1) as TI2.
+    pose proof (shr_send_session h1 x (SBye B_room_session_reconnected)) as S2.
+    destruct (send_session h1 x (SBye B_room_session_reconnected)) as [h2 o2]. cbn [fst] in *.
+    assert (L12 : Loc b oc h (h2, o1 ++ o2)) by (apply (loc_bind b oc h (h1, o1) (h2, o2)); assumption).
+    assert (L3 : Loc b oc h2 (close_session h2 x)).
+    { apply (loc_bye_close b oc h h2 x s); auto; [apply TIh|eapply shr_trans; eauto|].
+      eapply bsid_fr; [apply L12|exact Hsubj]. }
+    destruct (close_session h2 x) as [h3 o3].
+    pose proof (loc_bind b oc h (h2, o1 ++ o2) (h3, o3) L12 L3) as L. cbn [fst snd] in L. now rewrite <- app_assoc in L.
+Qed.
+
+Lemma take_nth_incl {A} n : forall (l : list A) p rest, take_nth n l = Some (p, rest) -> In p l /\ incl rest l.
+Proof.
+  induction n as [|n IH]; intros [|x l] p rest H; cbn in H; try discriminate.
+  - injection H as <- <-. split; [now left|]. intros y Hy. now right.
+  - destruct (take_nth n l) as [[y r']|] eqn:E; [|discriminate]. injection H as <- <-.
+    destruct (IH l y r' E) as [Hin Hi]. split; [now right|]. intros z [->|Hz]; [now left|right; now apply Hi].
+Qed.
+
+Lemma ten_bus h v : Ten h -> Ten (set_bus h v).
+Proof. intros T. apply (ten_ext h); auto. Qed.
+Lemma ti_bus h v : TI h -> TI (set_bus h v).
+Proof. intros [T B]. split; [now apply ten_bus|]. apply (bij_ceq h); [apply ceq_eq; reflexivity|exact B]. Qed.
+
+Definition bus_all (b : N) (h : hub) : Prop := forall p, In p (h_bus h) -> pub_ok b h p.
+
+Lemma loc_deliver_at b oc h pos : TI h -> WF h ->
+  (forall p rest, take_nth pos (h_bus h) = Some (p, rest) -> pub_ok b h p) -> Loc b oc h (deliver_at h pos).
+Proof.
+  intros TIh W Hp. unfold deliver_at. destruct (take_nth pos (h_bus h)) as [[p rest]|] eqn:E; [|apply loc_ret].
+  destruct (take_nth_incl _ _ _ _ E) as [Hin Hi].
+  assert (F1 : Fr b oc h (set_bus h rest)).
+  { constructor; auto. }
+  eapply loc_after_fr; [exact F1|]. apply loc_deliver_pub; [now apply ti_bus| |].
+  - eapply wf_equiv; [apply equiv_bus|exact W].
+  - apply (pub_ok_fr b oc h); [exact F1|]. now apply (Hp p rest).
+Qed.
+Lemma ti_deliver_at h pos : TI h -> TI (fst (deliver_at h pos)).
+Proof. intros TIh. apply (ti_next h); [exact TIh|apply shr_deliver_at|apply bij_deliver_at, TIh]. Qed.
+
+Lemma bus_all_fr b oc h h' : Fr b oc h h' -> bus_all b h -> bus_all b h'.
+Proof.
+  intros F Ha p Hp. destruct (fr_bus _ _ _ _ F p Hp) as [Hin|Hok]; [|exact Hok]. apply (pub_ok_fr b oc h); auto.
+Qed.
+
+(* ------------------------------------------------------------------ the side condition: no foreign room-session id *)
+Definition sess_on (h : hub) (b : N) (osid : option N) : bool :=
+  match osid with
+  | Some sid => match get_sess h sid with Some s => N.eqb (s_backend s) b | None => true end
+  | None => true
+  end.
+Definition conn_backend (h : hub) (c : N) : option N :=
+  match aget (h_conns h) c with
+  | Some cn => match c_sess cn with
+               | Some sid => match get_sess h sid with Some s => Some (s_backend s) | None => None end
+               | None => None end
+  | None => None
+  end.
+(* the room-session ids the op names are held by nobody or by sessions of the op's own backend *)
+Definition rs_local (h : hub) (o : op) : bool :=
+  match o with
+  | OJoin c room rs rep =>
+      match conn_backend h c with
+      | Some b => sess_on h b (aget (h_rs2 h) (1000000 + rs))
+      | None => true end
+  | OApi b _ _ (ADisinvite users rsessions) => forallb (fun rs => sess_on h b (aget (h_rs2 h) (1000000 + rs))) rsessions
+  | OApi b _ _ (AInCall l) | OApi b _ _ (AParticipants l) => forallb (fun u => sess_on h b (resolve_rs h (fst (fst u)))) l
+  | _ => true
+  end.
+
+Lemma sess_on_spec h b sid : sess_on h b (Some sid) = true -> bsid b h sid.
+Proof. cbn. intros H s Hs. rewrite Hs in H. now apply N.eqb_eq. Qed.
+
+Lemma fold_left_inv_in {A} (P : hub -> Prop) (f : hub -> A -> hub) l : forall h,
+  P h -> (forall hh x, In x l -> P hh -> P (f hh x)) -> P (fold_left f l h).
+Proof.
+  induction l as [|x l IH]; intros h Hh Hf; cbn [fold_left]; [exact Hh|].
+  apply IH; [apply Hf; [now left|exact Hh]|]. intros hh y Hy. apply Hf. now right.
+Qed.
+
+Definition resolved (h : hub) (l : list apiuser) : list apiuser :=
+  flat_map (fun u => let '(i, ic, p) := u in match resolve_rs h i with Some sid => [(IdPub sid, ic, p)] | None => [] end) l.
+Lemma resolved_ok b h l : forallb (fun u => sess_on h b (resolve_rs h (fst (fst u)))) l = true ->
+  forall i ic pm, In (i, ic, pm) (resolved h l) -> match i with IdPub sid => bsid b h sid | _ => True end.
+Proof.
+  intros Hall i ic pm Hin. unfold resolved in Hin. apply in_flat_map in Hin as ([[i0 ic0] pm0] & Hu & Hin).
+  rewrite forallb_forall in Hall. specialize (Hall _ Hu). cbn [fst] in Hall.
+  destruct (resolve_rs h i0) as [sid|] eqn:Hr; [|contradiction]. destruct Hin as [E|[]]. injection E as <- <- <-.
+  now apply sess_on_spec.
+Qed.
+
+Lemma loc_do_api b oc h room q : TI h -> rs_local h (OApi b b room q) = true -> Loc b oc h (do_api h b room q).
+Proof.
+  intros TIh Hl. unfold do_api.
+  assert (Hreq : forall q', match q' with AInCall _ => False | _ => True end ->
+                   Loc b oc h (publish h (SubjBackendRoom b room) (ARoomReq q'), [])).
+  { intros q' Hq'. apply loc_fr, fr_publish. split; cbn; [reflexivity|]. destruct q'; try exact I. contradiction. }
+  destruct q as [|users rs|tag|l|l|ic|tag]; try (apply Hreq; exact I).
+  - (* disinvite *)
+    apply loc_fr. cbn [rs_local] in Hl. rewrite forallb_forall in Hl.
+    set (P := fun hh => Fr b oc h hh /\ h_rs2 hh = h_rs2 h /\ h_sessions hh = h_sessions h).
+    assert (HP : P (fold_left (fun hh u => publish hh (SubjUser b u) (AEvent (SDisinvite room) 0 false)) users h)).
+    { apply (wf_fold_left_hub P); [unfold P; split; [apply fr_refl|split; reflexivity]|]. intros hh u HPh. unfold P in HPh |- *.
+      destruct HPh as (F & E2 & Es). split; [|split; assumption].
+      eapply fr_trans; [exact F|]. apply fr_publish. now apply pub_ok_plain. }
+    match goal with |- Fr _ _ _ (fold_left ?f rs ?h0) => assert (HP2 : P (fold_left f rs h0)) end; [|apply HP2].
+    apply (fold_left_inv_in P); [exact HP|]. intros hh y Hy HPh. unfold P in HPh |- *. destruct HPh as (F & E2 & Es). rewrite E2.
+    destruct (aget (h_rs2 h) (1000000 + y)) as [sid|] eqn:Hr; [|split; [exact F|split; assumption]].
+    split; [|split; assumption]. eapply fr_trans; [exact F|]. apply fr_publish. apply pub_ok_plain; [|exact I].
+    cbn. intros s Hs. rewrite (get_ext h hh sid Es) in Hs. specialize (Hl y Hy). rewrite Hr in Hl. now apply (sess_on_spec h b sid).
+  - (* participants *)
+    cbn [rs_local] in Hl. fold (resolved h l). pose proof (resolved_ok b h l Hl) as Hok.
+    destruct (resolved h l) as [|u0 us] eqn:El; [apply loc_ret|]. rewrite <- El in *. apply loc_fr.
+    match goal with |- Fr _ _ _ (publish (fold_left ?f ?ll h) _ _) => assert (F1 : Fr b oc h (fold_left f ll h)) end.
+    { apply fr_fold_left_hub. intros hh [[i icv] pm] Fh Hin. destruct i as [n|sid|kk|n]; try apply fr_refl.
+      destruct pm as [pmv|]; [|apply fr_refl]. apply fr_publish. apply pub_ok_plain; [|exact I]. cbn.
+      eapply bsid_fr; [exact Fh|]. apply (Hok (IdPub sid) icv (Some pmv) Hin). }
+    eapply fr_trans; [exact F1|]. apply fr_publish. split; cbn; [reflexivity|exact I].
+  - (* incall *)
+    cbn [rs_local] in Hl. fold (resolved h l). pose proof (resolved_ok b h l Hl) as Hok.
+    destruct (resolved h l) as [|u0 us] eqn:El; [apply loc_ret|]. rewrite <- El in *. apply loc_fr.
+    apply fr_publish. split; cbn; [reflexivity|exact Hok].
+Qed.
+Lemma ti_do_api h b room q : TI h -> TI (fst (do_api h b room q)).
+Proof. intros TIh. apply (ti_next h); [exact TIh|apply shr_do_api|apply bij_do_api, TIh]. Qed.
+
+(* ------------------------------------------------------------------ media: the requester's own session only *)
+Lemma loc_finish_create b oc h tok p ok : TI h -> bsid b h (mp_owner p) -> bsid b h (mp_errto p) ->
+  Loc b oc h (finish_create h tok p ok).
+Proof.
+  intros TIh Ho He. unfold finish_create.
+  assert (Hsend : forall x m (pre : list out), noconn pre -> bsid b h x ->
+            Loc b oc h (let '(h1, o1) := send_session h x m in (h1, pre ++ o1))).
+  { intros x m pre Hn Hx. pose proof (loc_send_session b oc h x m TIh Hx) as [F O].
+    destruct (send_session h x m) as [h1 o1]. cbn [fst snd] in *. split; cbn [fst snd]; [exact F|].
+    apply outs_ok_app; [now apply noconn_ok|exact O]. }
+  assert (N1 : forall t, noconn [ToMcu t]) by (intros t; apply noconn_cons; [intros; discriminate|apply noconn_nil]).
+  assert (N2 : forall t t', noconn [ToMcu t; ToMcu t']) by (intros t t'; apply noconn_cons; [intros; discriminate|apply N1]).
+  destruct ok; cbn [negb].
+  2:{ apply (Hsend (mp_errto p) (SError E_client_not_found) [ToMcu (MFailed tok)]); auto. }
+  destruct (get_sess h (mp_owner p)) as [s|] eqn:Hs; [|apply loc_noconn; [apply fr_refl|apply N1]].
+  assert (Hb : s_backend s = b) by now apply Ho.
+  destruct (negb (N.eqb (s_rel s) (mp_rel p))).
+  { apply (Hsend (mp_errto p) (SError E_client_not_found) [ToMcu (MCreated tok); ToMcu (MClose tok)]); auto. }
+  destruct (N.eqb (mp_kind p) 0 && negb (offer_allowed (s_perms s) (mp_stream p) (N.land (mp_media p) 3))).
+  { apply (Hsend (mp_errto p) (SError E_not_allowed) [ToMcu (MCreated tok); ToMcu (MClose tok)]); auto. }
+  assert (Hput : forall s1 (r : bool) m (pre : list out), noconn pre -> s_backend s1 = b -> s_conn s1 = s_conn s -> s_kind s1 = s_kind s -> s_room s1 = s_room s ->
+            let h1 := put_sess h (mp_owner p) s1 in
+            let h2 := set_mcu h1 (h_mcutok h1) (h_mcupending h1) (h_mcuopen h1 ++ [tok]) in
+            Loc b oc h (let '(h3, o3) := if r then send_session h2 (mp_owner p) m else (h2, []) in (h3, pre ++ o3))).
+  { intros s1 r m pre Hn Hb1 Hc1 Hk1 Hr1 h1 h2.
+    assert (F2 : Fr b oc h h2).
+    { apply (fr_then_eq b oc h h1 h2); try reflexivity. apply fr_put with s; auto. }
+    assert (TI2 : TI h2).
+    { split.
+      - apply (ten_ext h1); try reflexivity. apply (ten_shr h); [apply TIh|]. apply shr_put with s; [exact Hs|apply keeps_same; congruence].
+      - apply (bij_ceq h); [|apply TIh]. eapply ceq_trans; [apply (ceq_put h (mp_owner p) s s1 Hs); now left|]. apply ceq_eq; reflexivity. }
+    destruct r.
+    - pose proof (loc_send_session b oc h2 (mp_owner p) m TI2 (bsid_fr b oc h h2 _ F2 Ho)) as L.
+      destruct (send_session h2 (mp_owner p) m) as [h3 o3].
+      pose proof (loc_after_fr b oc h h2 (h3, o3) F2 L) as [F O]. split; cbn [fst snd] in *; [exact F|].
+      apply outs_ok_app; [now apply noconn_ok|exact O].
+    - apply loc_noconn; cbn [fst snd]; [exact F2|]. rewrite app_nil_r. exact Hn. }
+  assert (Hcond : forall (r : bool) m (pre : list out), noconn pre ->
+            Loc b oc h (let '(h1, o1) := if r then send_session h (mp_owner p) m else (h, []) in (h1, pre ++ o1))).
+  { intros r m pre Hn. destruct r; [now apply Hsend|]. apply loc_noconn; cbn [fst snd]; [apply fr_refl|]. now rewrite app_nil_r. }
+  destruct (N.eqb (mp_kind p) 0).
+  - destruct (aget (s_pubs s) (mp_stream p)).
+    + apply (Hcond _ _ [ToMcu (MCreated tok); ToMcu (MClose tok)]). apply N2.
+    + apply (Hput _ _ _ [ToMcu (MCreated tok)]); auto.
+  - destruct (sub_get s (mp_pubof p) (mp_stream p)).
+    + apply (Hcond _ _ [ToMcu (MCreated tok); ToMcu (MClose tok)]). apply N2.
+    + apply (Hput _ _ _ [ToMcu (MCreated tok)]); auto.
+Qed.
+
+Lemma ti_mcu h a c d : TI h -> TI (set_mcu h a c d).
+Proof. intros [T B]. split; [apply (ten_ext h); auto|]. apply (bij_ceq h); [apply ceq_eq; reflexivity|exact B]. Qed.
+
+Lemma loc_start_create b oc h p : TI h -> bsid b h (mp_owner p) -> bsid b h (mp_errto p) -> Loc b oc h (start_create h p).
+Proof.
+  intros TIh Ho He. unfold start_create.
+  destruct (h_gated h).
+  - apply loc_noconn; cbn [fst snd]; [apply fr_eq; reflexivity|]. apply noconn_cons; [intros; discriminate|apply noconn_nil].
+  - match goal with |- context [finish_create ?hh ?t p true] => pose proof (loc_finish_create b oc hh t p true) as L; destruct (finish_create hh t p true) as [h1 o1] end.
+    destruct L as [F O]; [now apply ti_mcu|exact Ho|exact He|]. cbn [fst snd] in *. split; cbn [fst snd].
+    + eapply fr_trans; [|exact F]. apply fr_eq; reflexivity.
+    + apply outs_ok_cons_other; [intros; discriminate|]. intros c m Hin. destruct (O c m Hin) as [E|(sid & s & Hs & Hb & Hc)]; [now left|right].
+      exists sid, s. auto.
+Qed.
+
+Lemma loc_do_mcudone b oc h tok ok : TI h ->
+  (forall p, aget (h_mcupending h) tok = Some p -> bsid b h (mp_owner p) /\ bsid b h (mp_errto p)) ->
+  Loc b oc h (do_mcudone h tok ok).
+Proof.
+  intros TIh Hp. unfold do_mcudone. destruct (aget (h_mcupending h) tok) as [p|]; [|apply loc_ret].
+  destruct (Hp p eq_refl) as [Ho He].
+  match goal with |- context [finish_create ?hh ?t p ok] => pose proof (loc_finish_create b oc hh t p ok) as L; destruct (finish_create hh t p ok) as [h1 o1] end.
+  destruct L as [F O]; [now apply ti_mcu|exact Ho|exact He|]. cbn [fst snd] in *. split; cbn [fst snd].
+  - eapply fr_trans; [|exact F]. apply fr_eq; reflexivity.
+  - intros c m Hin. destruct (O c m Hin) as [E|(sid & s & Hs & Hb & Hc)]; [now left|right]. exists sid, s. auto.
+Qed.
+
+Lemma loc_do_media b h c x s to mk stream media : TI h -> get_sess h x = Some s -> s_backend s = b ->
+  Loc b (Some c) h (do_media h c x s to mk stream media).
+Proof.
+  intros TIh Hs Hb. unfold do_media.
+  assert (Hx : bsid b h x) by (intros t Ht; congruence).
+  assert (Herr : forall e, Loc b (Some c) h (h, [ToConn c (SError e)])).
+  { intros e. split; [apply fr_refl|]. apply outs_ok_cons_own; [reflexivity|apply outs_ok_nil]. }
+  destruct to as [i|u| |]; try apply loc_ret.
+  destruct (N.eqb mk 0).
+  - destruct (negb (offer_allowed (s_perms s) stream media)); [apply Herr|].
+    destruct (aget (s_pubs s) stream).
+    + match goal with |- context [put_sess h x ?s1] => set (s' := s1) end.
+      assert (F1 : Fr b (Some c) h (put_sess h x s')) by (apply fr_put with s; auto).
+      eapply loc_after_fr; [exact F1|]. apply loc_send_session; [|now apply bsid_put_same].
+      split; [apply (ten_shr h); [apply TIh|apply shr_put with s; [exact Hs|now apply keeps_same]]|].
+      apply (bij_ceq h); [apply (ceq_put h x s s' Hs); now left|apply TIh].
+    + now apply loc_start_create.
+  - destruct (N.eqb mk 1).
+    + match goal with |- context [if ?cnd then _ else _] => destruct cnd end; [apply loc_ret|].
+      destruct (negb (same_call h x s _)); [apply Herr|].
+      destruct (sub_get s _ stream); [now apply loc_send_session|now apply loc_start_create].
+    + destruct (N.eqb mk 2); [|apply loc_ret].
+      match goal with |- context [if ?cnd then _ else _] => destruct cnd end.
+      * destruct (negb (send_allowed (s_perms s) stream)); [apply Herr|]. destruct (aget (s_pubs s) stream); [apply loc_ret|apply Herr].
+      * destruct (sub_get s _ stream); [apply loc_ret|apply Herr].
+Qed.
+
+(* ------------------------------------------------------------------ joining *)
+Lemma ti_ext h h' : TI h -> h_sessions h' = h_sessions h -> h_rooms h' = h_rooms h -> h_conns h' = h_conns h -> TI h'.
+Proof. intros [T B] Es Er Ec. split; [now apply (ten_ext h)|]. apply (bij_ceq h); [now apply ceq_eq|exact B]. Qed.
+
+Lemma join_room_spec b oc h c sid k rs perms su :
+  TI h -> bsid b h sid -> fst k = b ->
+  TI (fst (join_room h c sid k rs perms su)) /\ Loc b oc h (join_room h c sid k rs perms su).
+Proof.
+  intros TIh Hsid Hk. unfold join_room.
+  pose proof (fr_leave_room b oc h sid true (proj1 TIh) Hsid) as F1.
+  pose proof (noconn_leave_room h sid true) as N1.
+  pose proof (ti_leave_room h sid true TIh) as TI1.
+  destruct (leave_room h sid true) as [h1 o1]. cbn [fst snd] in *.
+  assert (L1 : Loc b oc h (h1, o1)) by (split; [exact F1|now apply noconn_ok]).
+  assert (Hsid1 : bsid b h1 sid) by (eapply bsid_fr; eauto).
+  destruct (get_sess h1 sid) as [s|] eqn:Hs; [|split; [exact TI1|exact L1]].
+  assert (Hb : s_backend s = b) by now apply Hsid1.
+  set (r := match room_of h1 k with Some x0 => x0 | None => empty_room end).
+  set (r' := mkroom (nadd sid (r_members r)) (r_incall r) (if N.eqb su 0 then r_sessdata r else aset (r_sessdata r) sid su) (r_transient r) (r_props r)).
+  set (s1 := upd_sess s (Some k) rs (s_conn s) (match perms with Some p => Some p | None => s_perms s end) (s_pending s) [] (h_clock h1)).
+  set (hr := set_rooms h1 (pset (h_rooms h1) k r')).
+  set (h2 := set_clock (put_sess hr sid s1) (h_clock h1 + 1)).
+  assert (F2 : Fr b oc h1 h2).
+  { eapply fr_trans; [apply (fr_set_room b oc h1 k r' Hk)|]. fold hr.
+    apply (fr_aset b oc hr h2 sid s1); try reflexivity; auto.
+    intros c' Hc'. right. exists sid, s. auto. }
+  assert (T2 : Ten h2).
+  { apply (ten_update h1 h2 sid s s1); try reflexivity; auto; [apply TI1| |].
+    - intros k0 Hk0. cbn in Hk0. injection Hk0 as <-. congruence.
+    - intros k0 r0 m Hr0 Hm. change (room_of h2 k0) with (pget (pset (h_rooms h1) k r') k0) in Hr0.
+      rewrite pget_pset in Hr0. destruct (pair_eqb_spec k0 k) as [->|Hne].
+      + injection Hr0 as <-. cbn [r_members r'] in Hm. apply nmem_In in Hm. rewrite nmem_nadd in Hm.
+        apply orb_prop in Hm as [Hm|Hm]; [apply N.eqb_eq in Hm; left; split; congruence|].
+        right. apply nmem_In in Hm. unfold r, room_of in Hm. unfold room_of. destruct (pget (h_rooms h1) k) as [r0|]; [eauto|destruct Hm].
+      + right. eauto. }
+  assert (B2 : Bij h2).
+  { apply (bij_ceq h1); [|apply TI1]. constructor; [reflexivity|].
+    intros tid c' (t & Ht & Hc'). change (get_sess h2 tid) with (aget (aset (h_sessions h1) sid s1) tid) in Ht.
+    rewrite aget_aset in Ht. destruct (N.eqb_spec tid sid) as [->|Hne].
+    - injection Ht as <-. exists s. auto.
+    - exists t. auto. }
+  set (h3 := if N.eqb rs 0 then h2 else rs_set h2 sid rs).
+  set (h4 := set_anonymous h3 (nrem sid (h_anonymous h3))).
+  set (h5 := match s_kind s with KInternal _ true => set_dialout h4 (nrem sid (h_dialout h4)) | _ => h4 end).
+  assert (E5 : h_sessions h5 = h_sessions h2 /\ h_rooms h5 = h_rooms h2 /\ h_bus h5 = h_bus h2 /\ h_conns h5 = h_conns h2).
+  { assert (E3 : h_sessions h3 = h_sessions h2 /\ h_rooms h3 = h_rooms h2 /\ h_bus h3 = h_bus h2 /\ h_conns h3 = h_conns h2).
+    { unfold h3. destruct (N.eqb rs 0); [auto|]. rewrite rs_set_sessions, rs_set_rooms, rs_set_bus, rs_set_conns. auto. }
+    destruct E3 as (A1 & A2 & A3 & A4). unfold h5. destruct (s_kind s) as [|f d|]; try destruct d; cbn; auto. }
+  destruct E5 as (E5s & E5r & E5b & E5c).
+  assert (TI5 : TI h5) by (apply (ti_ext h2); auto; split; assumption).
+  assert (F5 : Fr b oc h1 h5) by (apply (fr_then_eq b oc h1 h2 h5); auto).
+  assert (Hsid5 : bsid b h5 sid) by (eapply bsid_fr; eauto).
+  pose proof (loc_send_session b oc h5 sid (SRoom (snd k)) TI5 Hsid5) as L7.
+  pose proof (ti_send_session h5 sid (SRoom (snd k)) TI5) as TI7.
+  destruct (send_session h5 sid (SRoom (snd k))) as [h7 o2]. cbn [fst] in TI7.
+  assert (L17 : Loc b oc h1 (h7, o2)) by (eapply loc_after_fr; eauto).
+  assert (L07 : Loc b oc h (h7, o1 ++ o2)) by (apply (loc_bind b oc h (h1, o1) (h7, o2)); assumption).
+  destruct (room_of h7 k); [|split; [exact TI7|exact L07]].
+  assert (Hsid7 : bsid b h7 sid) by (eapply bsid_fr; [apply L17|exact Hsid1]).
+  set (uid := if N.eqb (s_user s) 0 then su else s_user s).
+  set (h9 := if nmem sid (r_members r) then h7 else publish h7 (SubjRoom (fst k) (snd k)) (ARoomEvent (SJoin [(sid, uid)]))).
+  assert (F9 : Fr b oc h7 h9).
+  { unfold h9. destruct (nmem sid (r_members r)); [apply fr_refl|]. apply fr_publish. now apply pub_ok_plain. }
+  assert (TI9 : TI h9) by (unfold h9; destruct (nmem sid (r_members r)); [exact TI7|now apply ti_publish]).
+  assert (L10 : Loc b oc h9 (if nmem sid (r_members r) then (h9, [])
+                              else match r_transient r with [] => (h9, []) | _ => send_session h9 sid (STransient 0 0) end) /\
+                TI (fst (if nmem sid (r_members r) then (h9, [])
+                              else match r_transient r with [] => (h9, []) | _ => send_session h9 sid (STransient 0 0) end))).
+  { destruct (nmem sid (r_members r)); [split; [apply loc_ret|exact TI9]|].
+    destruct (r_transient r); [split; [apply loc_ret|exact TI9]|].
+    split; [apply loc_send_session; [exact TI9|eapply bsid_fr; eauto]|now apply ti_send_session]. }
+  destruct L10 as [L10 TI10].
+  match goal with |- context [let '(h10, outs3) := ?X in _] => destruct X as [h10 o3] end. cbn [fst] in *.
+  assert (L79 : Loc b oc h7 (h10, o3)) by (eapply loc_after_fr; eauto).
+  assert (Hsid10 : bsid b h10 sid) by (eapply bsid_fr; [apply L79|exact Hsid7]).
+  split; [now apply ti_publish|].
+  pose proof (loc_bind b oc h (h7, o1 ++ o2) (h10, o3) L07 L79) as L. cbn [fst snd] in L. rewrite <- app_assoc in L.
+  eapply loc_then_fr with (r := (h10, o1 ++ o2 ++ o3)); [exact L|]. cbn [fst].
+  apply fr_publish. split; cbn; [exact Hk|exact Hsid10].
+Qed.
+
+Lemma bsid_shr b h h' x : shr h h' -> bsid b h x -> bsid b h' x.
+Proof. intros S Hx t Ht. destruct (sh_sess _ _ S x t Ht) as (t0 & Ht0 & Hb & _). rewrite Hb. now apply Hx. Qed.
+
+Definition kick_ok (b : N) (h : hub) (rs : N) : Prop := forall x, aget (h_rs2 h) (1000000 + rs) = Some x -> bsid b h x.
+
+Lemma do_join_spec b oc h c sid s rn rs rep :
+  TI h -> get_sess h sid = Some s -> s_backend s = b ->
+  TI (fst (do_join h c sid s rn rs rep)) /\ (kick_ok b h rs -> Loc b oc h (do_join h c sid s rn rs rep)).
+Proof.
+  intros TIh Hs Hb. assert (Hsid : bsid b h sid) by (intros t Ht; congruence).
+  unfold do_join. destruct (N.eqb rn 0).
+  - destruct (s_room s); [|split; [exact TIh|intros _; apply loc_ret]].
+    pose proof (fr_leave_room b oc h sid true (proj1 TIh) Hsid) as F1.
+    pose proof (noconn_leave_room h sid true) as N1.
+    pose proof (ti_leave_room h sid true TIh) as TI1.
+    destruct (leave_room h sid true) as [h1 o1]. cbn [fst snd] in *.
+    assert (L1 : Loc b oc h (h1, o1)) by (split; [exact F1|now apply noconn_ok]).
+    assert (L2 : Loc b oc h1 (send_session h1 sid (SRoom 0))) by (apply loc_send_session; [exact TI1|eapply bsid_fr; eauto]).
+    pose proof (ti_send_session h1 sid (SRoom 0) TI1) as TI2.
+    destruct (send_session h1 sid (SRoom 0)) as [h2 o2]. cbn [fst] in *.
+    pose proof (loc_bind b oc h (h1, o1) (h2, o2) L1 L2) as L. cbn [fst snd] in L.
+    destruct (N.eqb (s_user s) 0 && negb (is_internal (s_kind s))); [|split; [exact TI2|intros _; exact L]].
+    split; [apply (ti_ext h2); auto|]. intros _. eapply loc_then_fr with (r := (h2, o1 ++ o2)); [exact L|]. apply fr_eq; reflexivity.
+  - set (k := (s_backend s, rn)). set (rsv := if N.eqb rs 0 then 0 else 1000000 + rs).
+    assert (Hk : fst k = b) by exact Hb.
+    destruct (match room_of h k with Some r => nmem sid (r_members r) | None => false end).
+    + set (newrs := if N.eqb rs 0 then 2000000 + sid else rsv).
+      set (h1 := if N.eqb (s_rs s) newrs then h else put_sess (rs_set h sid newrs) sid (sess_rs s newrs)).
+      assert (F1 : Fr b oc h h1).
+      { unfold h1. destruct (N.eqb (s_rs s) newrs); [apply fr_refl|].
+        eapply fr_trans; [apply (fr_rs_set b oc h sid newrs)|].
+        apply fr_put with s; auto. unfold get_sess. rewrite rs_set_sessions. exact Hs. }
+      assert (TI1 : TI h1).
+      { unfold h1. destruct (N.eqb (s_rs s) newrs); [exact TIh|].
+        assert (Hs' : get_sess (rs_set h sid newrs) sid = Some s) by (unfold get_sess; rewrite rs_set_sessions; exact Hs).
+        apply (ti_next h); [exact TIh| |].
+        - eapply shr_trans; [apply (shr_rs_set h sid newrs)|]. apply shr_put with s; [exact Hs'|now apply keeps_same].
+        - apply (bij_ceq h); [|apply TIh]. eapply ceq_trans; [apply (ceq_rs_set h sid newrs)|]. apply ceq_put with s; [exact Hs'|now left]. }
+      pose proof (loc_send_session b oc h1 sid (SError E_already_joined) TI1 (bsid_fr b oc h h1 sid F1 Hsid)) as L2.
+      pose proof (ti_send_session h1 sid (SError E_already_joined) TI1) as TI2.
+      destruct (send_session h1 sid (SError E_already_joined)) as [h2 o2]. cbn [fst] in *.
+      split; [exact TI2|intros _; eapply loc_after_fr; eauto].
+    + destruct (is_internal (s_kind s)).
+      { destruct (join_room_spec b oc h c sid k rsv None 0 TIh Hsid Hk) as [TJ LJ]. split; [exact TJ|intros _; exact LJ]. }
+      set (req := ToBackend (s_backend s, 1, 0, rn, (if N.eqb rs 0 then 2000000 + sid else rsv), 1)).
+      assert (K : TI (fst (if N.eqb rs 0 || N.eqb (s_rs s) rsv then (h, []) else kick_room_session h rsv)) /\
+                  shr h (fst (if N.eqb rs 0 || N.eqb (s_rs s) rsv then (h, []) else kick_room_session h rsv)) /\
+                  (kick_ok b h rs -> Loc b oc h (if N.eqb rs 0 || N.eqb (s_rs s) rsv then (h, []) else kick_room_session h rsv))).
+      { destruct (N.eqb rs 0) eqn:E0; cbn [orb]; [split; [exact TIh|split; [apply shr_refl|intros _; apply loc_ret]]|].
+        destruct (N.eqb (s_rs s) rsv); [split; [exact TIh|split; [apply shr_refl|intros _; apply loc_ret]]|].
+        split; [now apply ti_kick|]. split; [apply shr_kick|]. intros Hko. apply loc_kick; [exact TIh|].
+        unfold rsv; try rewrite E0; exact Hko. }
+      destruct K as (TI1 & S1 & L1).
+      match goal with |- context [let '(h1, outs1) := ?X in _] => destruct X as [h1 o1] end. cbn [fst] in *.
+      assert (Hsid1 : bsid b h1 sid) by (eapply bsid_shr; eauto).
+      assert (Hreq : forall r0, Loc b oc h r0 -> Loc b oc h (fst r0, req :: snd r0)).
+      { intros r0 [F O]. split; cbn [fst snd]; [exact F|]. apply outs_ok_cons_other; [intros; discriminate|exact O]. }
+      destruct (get_sess h1 sid); [|split; [exact TI1|intros Hko; apply (Hreq (h1, o1)), L1, Hko]].
+      destruct rep as [perms su|code].
+      * destruct (join_room_spec b oc h1 c sid k rsv perms su TI1 Hsid1 Hk) as [TJ LJ].
+        destruct (join_room h1 c sid k rsv perms su) as [h2 o2]. cbn [fst] in *.
+        split; [exact TJ|]. intros Hko. apply (Hreq (h2, o1 ++ o2)). apply (loc_bind b oc h (h1, o1) (h2, o2)); auto.
+      * pose proof (loc_send_session b oc h1 sid (SError code) TI1 Hsid1) as L2.
+        pose proof (ti_send_session h1 sid (SError code) TI1) as TI2.
+        destruct (send_session h1 sid (SError code)) as [h2 o2]. cbn [fst] in *.
+        split; [exact TI2|]. intros Hko. apply (Hreq (h2, o1 ++ o2)). apply (loc_bind b oc h (h1, o1) (h2, o2)); auto.
+Qed.
